@@ -45,6 +45,23 @@ Theorem C19_embedded_gap : forall t, In t methods -> embedded_gap_ok t = true.
 Proof. exact embedded_gap_all. Qed.
 Print Assumptions C19_embedded_gap.
 
+(* the two halves agree beyond the advertised order too: for every power k up to the stage number the
+   k-th coefficient of the table recursion is the elementary weight b . A^(k-1) . 1 of the tall tree
+   with k vertices (so a recursion error in a high, non-Taylor coefficient is an error against the
+   tableau itself, not only against 1/k!), and every coefficient row has stage+1 entries *)
+Theorem C19_ti_coeff_is_tall_tree_weight :
+  forall t, In t methods ->
+  length (ti_coeff t) = length (t_b t) /\
+  forall b row, In (b, row) (combine (t_b t) (ti_coeff t)) ->
+    length row = S (t_stage t) /\
+    forall k, 1 <= k <= t_stage t -> (nth k row 0 == dotq b (Phi (t_a t) (tall k)))%Q.
+Proof. exact ti_coeff_tall_all. Qed.
+Print Assumptions C19_ti_coeff_is_tall_tree_weight.
+
+Theorem C19_tall_tree_order : forall k, 1 <= k -> order (tall k) = k.
+Proof. exact tall_order. Qed.
+Print Assumptions C19_tall_tree_order.
+
 (* non-vacuity: ten methods, 23 tree shapes up to order five *)
 Example C19_nonvacuous : length methods = 10 /\ length (all_upto 5) = 23.
 Proof. vm_compute. split; reflexivity. Qed.
